@@ -270,8 +270,18 @@ fn run_live(job: &Job, live: &Live, src: &str, path: Option<PathBuf>) -> JobResu
         let mut programs = vec![];
         for e in &edits {
             busy2.store(true, Relaxed);
-            let res = compiler.emit_bytecode(e);
+            // a compiler that panics on an erroneous save (it does for some type errors, alone as
+            // well as here) is a failed save for this session, not a fault of the interleaving
+            let res = catch_unwind(AssertUnwindSafe(|| compiler.emit_bytecode(e)));
             busy2.store(false, Relaxed);
+            let res = match res {
+                Ok(r) => r,
+                Err(_) => {
+                    ST_LIVE_FAILED_EDITS.fetch_add(1, Relaxed);
+                    listings.push(fnv(b"compiler-panicked"));
+                    continue;
+                }
+            };
             match res {
                 Ok(p) => {
                     listings.push(fnv(format!("{p}").as_bytes()));
@@ -423,6 +433,38 @@ fn run_analysis(src: &str, path: Option<PathBuf>) -> JobResult {
     JobResult::Diagnostics(lines)
 }
 
+/// A plugin function with a string parameter, written against the C ABI of the runtime
+/// (`RuntimeVTable::get_arg_string`) the way a plugin in a dynamic library is: it fetches the
+/// pointer, does some work of its own (here: one interner operation, i.e. a point at which the
+/// scheduler may run another thread), and only then reads the string, which the ABI promises to
+/// be valid for the duration of the call. Returns a number derived from the string.
+fn string_arg_plugin() -> Box<dyn mimium_lang::plugin::Plugin> {
+    use mimium_lang::interner::ToSymbol;
+    use mimium_lang::plugin::{ExtClsInfo, InstantPlugin};
+    use mimium_lang::runtime::vm::{Machine, ReturnCode};
+    use mimium_lang::runtime::vm_ffi::VM_RUNTIME_VTABLE;
+    use mimium_lang::types::Type;
+    use mimium_lang::{function, numeric, string_t};
+    let fun = std::rc::Rc::new(std::cell::RefCell::new(move |machine: &mut Machine| -> ReturnCode {
+        let rt = machine as *mut Machine as *mut std::ffi::c_void;
+        let ptr = unsafe { (VM_RUNTIME_VTABLE.get_arg_string)(rt, 0) };
+        let _ = "verif_tag_of".to_symbol();
+        let tag = if ptr.is_null() {
+            -1.0
+        } else {
+            let s = unsafe { std::ffi::CStr::from_ptr(ptr) }.to_string_lossy().into_owned();
+            (fnv(s.as_bytes()) % 1_000_003) as f64
+        };
+        machine.set_stack(0, Machine::to_value(tag));
+        1
+    }));
+    Box::new(InstantPlugin {
+        macros: vec![],
+        extcls: vec![ExtClsInfo::new("verif_tag_of".to_symbol(), function!(vec![string_t!()], numeric!()), fun)],
+        commonfns: vec![],
+    })
+}
+
 fn run_job(job: &Job) -> JobResult {
     let (src, path) = job.src.load();
     let r = catch_unwind(AssertUnwindSafe(|| {
@@ -438,6 +480,9 @@ fn run_job(job: &Job) -> JobResult {
         let plugins: Vec<Box<dyn mimium_lang::plugin::Plugin>> =
             if src.contains("verif_macro_file_tag") { vec![macro_file_plugin()] } else { vec![] };
         let mut plugins = plugins;
+        if src.contains("verif_tag_of") {
+            plugins.push(string_arg_plugin());
+        }
         let mut driver = job.driver.map(|_| {
             use mimium_audiodriver::driver::Driver;
             let d = mimium_audiodriver::backends::local_buffer::LocalBufferDriver::new(job.n.max(1) as usize);
@@ -1202,6 +1247,29 @@ fn gen_scenario(seed: u64) -> Scenario {
             }
         }
     }
+    // family: every job calls a plugin function with a string argument through the runtime's
+    // C ABI (what a dynamic-library plugin such as a sampler does with a file name); small
+    // programs, so many schedules fit the budget
+    let mut r_str = root.sub("plugin-string-args");
+    if r_str.chance(1, 8) {
+        libs.clear();
+        let same = r_str.chance(1, 4);
+        for (i, j) in jobs.iter_mut().enumerate() {
+            let name = if same { "kick".to_string() } else { format!("{}_{}", r_str.pick(&WORDS), i) };
+            let k = r_str.range(1, 9) as f64;
+            j.src = Src::Text(match r_str.below(3) {
+                0 => format!("fn dsp(){{\n  verif_tag_of(\"{name}.wav\") + {k:?}\n}}\n"),
+                1 => format!("fn tag(){{\n  verif_tag_of(\"{name}.wav\")\n}}\nfn cnt(){{\n  self + 1.0\n}}\nfn dsp(){{\n  tag() * {k:?} + cnt()\n}}\n"),
+                _ => format!("fn dsp(){{\n  verif_tag_of(\"{name}_a.wav\") - verif_tag_of(\"{name}_b.wav\") + {k:?}\n}}\n"),
+            });
+            j.n = *r_str.pick(&[8u64, 32, 128]);
+            j.wasm = false;
+            j.driver = None;
+            j.recompile = 0;
+            j.live = None;
+            j.analysis = false;
+        }
+    }
     // family: language-server analyses. Some or all jobs only analyse their buffer (front end
     // only, about a tenth of a compile+run job, so many more schedules fit the budget); with
     // `typing` set the buffers are successive keystrokes of one text (prefixes cut at line ends)
@@ -1331,6 +1399,7 @@ fn judge_once(sc: &Scenario, persist_dir: &str) -> serde_json::Value {
     counters.insert("executions_completed".into(), json!(ST_EXECUTIONS.swap(0, std::sync::atomic::Ordering::Relaxed)));
     counters.insert("recompiles".into(), json!(sc.jobs.iter().map(|j| j.recompile as u64).sum::<u64>()));
     counters.insert("jobs".into(), json!(sc.jobs.len()));
+    counters.insert("plugin_string_argument_jobs".into(), json!(sc.jobs.iter().filter(|j| j.src.load().0.contains("verif_tag_of")).count()));
     counters.insert("analysis_jobs".into(), json!(sc.jobs.iter().filter(|j| j.analysis).count()));
     counters.insert("live_sessions".into(), json!(sc.jobs.iter().filter(|j| j.live.is_some()).count()));
     counters.insert("live_swaps_applied".into(), json!(ST_LIVE_SWAPS.swap(0, std::sync::atomic::Ordering::Relaxed)));
